@@ -1,8 +1,8 @@
 (* C18 — the search step evaluates the acquisition-optimal candidate, once.
    Only statements here; every proof is in Proofs/ESSelectProofs.v.  Model: Model/ESSelect.v
-   (es_search.py l.44-69 and l.134-214, search_hedge.py l.58-67, bads.py l.1630-1655).
+   (es_search.py l.44-69 and l.134-215, search_hedge.py l.58-67, bads.py l.1630-1655).
    Oracle inputs, universally quantified: the survivors of every generation with their acquisition
-   values (any number of generations, any population sizes), the ceil'ed weight vector w0, the
+   values, numbers or NaN (any number of generations, any population sizes, empty generations anywhere), the ceil'ed weight vector w0, the
    positive numbers e_i = exp(beta (g_i - max g)) of any score history, the uniform draw. *)
 From Coq Require Import ZArith QArith List String Bool.
 From PV Require Import Model.Val Model.ESSelect Proofs.ESSelectProofs.
@@ -11,24 +11,39 @@ Open Scope Z_scope.
 
 (* The evolution strategy returns a lowest-acquisition survivor.  [gens] = the filtered population of
    each pass of the loop with its LCB values; the code accumulates ALL of them, ranks, returns the head.
-   Premise: every generation has at least one survivor.  (The weaker premise "the accumulated list is
-   non-empty" is NOT enough in the code as it is — see C18_es_later_empty_generation below.) *)
+   Premise: at least ONE generation has a survivor (any of them: the first, a later one, with empty
+   generations before, between or after).  An acquisition value is a number or NaN ([None]); [zle] is
+   the order np.argsort uses (numbers by value, NaN after every number). *)
 Theorem C18_es_returns_min :
-  forall (row : Type) (lamb : nat) (gens : list (list (row * Q))),
-    (1 <= lamb)%nat -> gens <> [] -> Forall (fun g => g <> []) gens ->
-    exists (u : row) (z : Q),
+  forall (row : Type) (lamb : nat) (gens : list (list (row * zv))),
+    (1 <= lamb)%nat -> Exists (fun g => g <> []) gens ->
+    exists (u : row) (z : zv),
       es_run row lamb gens = ESPoint u z /\
       In (u, z) (List.concat gens) /\
-      forall c : row * Q, In c (List.concat gens) -> (z <= snd c)%Q.
+      forall c : row * zv, In c (List.concat gens) -> zle z (snd c).
 Proof. exact es_returns_min. Qed.
 Print Assumptions C18_es_returns_min.
+
+(* The same in plain numbers: as soon as ONE survivor of ANY generation carries a number q0, the strategy
+   returns a survivor whose value is a number, the least of all numeric values of all survivors of all
+   generations; a NaN-valued candidate is never preferred. *)
+Theorem C18_es_returns_min_number :
+  forall (row : Type) (lamb : nat) (gens : list (list (row * zv))) (u0 : row) (q0 : Q),
+    (1 <= lamb)%nat -> In (u0, Some q0) (List.concat gens) ->
+    exists (u : row) (q : Q),
+      es_run row lamb gens = ESPoint u (Some q) /\
+      In (u, Some q) (List.concat gens) /\
+      (forall (u' : row) (q' : Q), In (u', Some q') (List.concat gens) -> (q <= q')%Q) /\
+      (forall u' : row, In (u', None) (List.concat gens) -> es_run row lamb gens <> ESPoint u' None).
+Proof. exact es_returns_min_number. Qed.
+Print Assumptions C18_es_returns_min_number.
 
 (* With no premise at all: a returned point is never invented, it is one of the accumulated survivors,
    and `z[0]` is never out of range once `us` is non-empty. *)
 Theorem C18_es_result_is_survivor :
-  forall (row : Type) (lamb : nat) (gens : list (list (row * Q))),
+  forall (row : Type) (lamb : nat) (gens : list (list (row * zv))),
     es_run row lamb gens <> ESStuck /\
-    forall (u : row) (z : Q), es_run row lamb gens = ESPoint u z -> In u (map fst (List.concat gens)).
+    forall (u : row) (z : zv), es_run row lamb gens = ESPoint u z -> In u (map fst (List.concat gens)).
 Proof. exact es_result_sound. Qed.
 Print Assumptions C18_es_result_is_survivor.
 
@@ -36,21 +51,35 @@ Print Assumptions C18_es_result_is_survivor.
    empty search set (repo commit 692d1d7; before it `us[0]` raised IndexError), the filter can only
    select from it, and the search step then evaluates nothing — a failed search. *)
 Theorem C18_es_all_filtered_is_failed_search :
-  forall (row : Type) (lamb : nat) (gens : list (list (row * Q))),
+  forall (row : Type) (lamb : nat) (gens : list (list (row * zv))),
     Forall (fun g => g = []) gens ->
     es_run row lamb gens = ESEmpty /\ forall z : list Q, search_trace row [] z = [].
 Proof. exact es_all_filtered_failed_search. Qed.
 Print Assumptions C18_es_all_filtered_is_failed_search.
 
-(* Observation (not gated on): a LATER generation without survivors makes the strategy return the empty
-   set although earlier generations had survivors with known acquisition values — es_search.py l.166
-   `z_candidates = np.random.rand(u_new.shape[0])` wipes the accumulated values (it was meant to
-   replace z_new), argsort of the now empty array selects nothing. *)
+(* ... and ONLY then: the empty search set means that no generation had a survivor. *)
+Theorem C18_es_empty_only_if_all_filtered :
+  forall (row : Type) (lamb : nat) (gens : list (list (row * zv))),
+    (1 <= lamb)%nat -> es_run row lamb gens = ESEmpty -> Forall (fun g => g = []) gens.
+Proof. exact es_empty_only_if_all_filtered. Qed.
+Print Assumptions C18_es_empty_only_if_all_filtered.
+
+(* A generation without survivors — in ANY position — changes nothing: the run returns what it returns
+   without that generation, so a later empty generation does not lose earlier survivors (es_search.py
+   l.166 after the repair: the fallback fills z_new, of length u_new.shape[0] = 0, and no longer wipes
+   z_candidates).  More generally the result depends only on the accumulated survivors. *)
 Theorem C18_es_later_empty_generation :
-  List.concat [[(1%nat, 3#1); (2%nat, 1#1)]; @nil (nat * Q)] <> [] /\
-  es_run nat 2 [[(1%nat, 3#1); (2%nat, 1#1)]; []] = ESEmpty.
-Proof. exact es_example_later_generation_empty. Qed.
+  forall (row : Type) (lamb : nat) (gens1 gens2 : list (list (row * zv))),
+    es_run row lamb (gens1 ++ [] :: gens2) = es_run row lamb (gens1 ++ gens2) /\
+    ((1 <= lamb)%nat -> List.concat gens1 <> [] -> es_run row lamb (gens1 ++ [] :: gens2) <> ESEmpty).
+Proof. exact es_empty_generation_skipped. Qed.
 Print Assumptions C18_es_later_empty_generation.
+
+Theorem C18_es_depends_on_survivors_only :
+  forall (row : Type) (lamb : nat) (gens gens' : list (list (row * zv))),
+    List.concat gens = List.concat gens' -> es_run row lamb gens = es_run row lamb gens'.
+Proof. exact es_run_concat. Qed.
+Print Assumptions C18_es_depends_on_survivors_only.
 
 (* Every survivor lies in the mesh-rounded box: contraints_check(proj=True) clamps each candidate to
    [lb_search, ub_search] and afterwards only selects rows. *)
@@ -148,11 +177,18 @@ Print Assumptions C18_hedge_distribution.
 
 (* Non-vacuity on concrete states; the second conjunct of C18_hedge_gap is the stuck choice. *)
 Example C18_es_example :
-  es_run nat 2 [[(1%nat, 3#1); (2%nat, 1#1); (3%nat, 5#2)]; [(4%nat, 2#1); (5%nat, 1#2)]] = ESPoint 5%nat (1#2)%Q.
+  es_run nat 2 [[(1%nat, Some (3#1)); (2%nat, Some (1#1)); (3%nat, Some (5#2))]; [(4%nat, Some (2#1)); (5%nat, Some (1#2))]]
+  = ESPoint 5%nat (Some (1#2)).
 Proof. exact es_example_ok. Qed.
 
 Example C18_es_example_all_filtered : es_run nat 2 [[]; []] = ESEmpty.
 Proof. exact es_example_all_filtered. Qed.
+
+(* a later generation without survivors; then a population whose acquisition values are NaN *)
+Example C18_es_example_later_generation_empty :
+  es_run nat 2 [[(1%nat, Some (3#1)); (2%nat, Some (1#1))]; []] = ESPoint 2%nat (Some (1#1)) /\
+  es_run nat 2 [[(1%nat, Some (3#1)); (2%nat, Some (1#1))]; []; [(3%nat, None); (4%nat, None)]] = ESPoint 2%nat (Some (1#1)).
+Proof. exact es_example_later_generation_empty. Qed.
 
 Example C18_mask_example :
   selection_mask [2; 1; 1; 1; 1; 1; 1; 1] 5 = MOk [0; 1; 1; 2; 3; 4] /\
